@@ -85,13 +85,9 @@ def oracle(scn, obs, ref, schedule):
                 sigval = 1
                 if installed:
                     tripped = True
-                elif True:
-                    pass
             else:
                 sigval = 0
                 if installed:
-                    if holding and removed_since is not None:
-                        pass
                     tripped = False
                     released = True
         elif t[0] == "env_release":
@@ -114,8 +110,6 @@ def oracle(scn, obs, ref, schedule):
                 if not gated and cmd == "wait_for":
                     out.append(("gated-without-trip", "the engine waits although no installed suspender is tripped"))
             if cmd == "_start_suspender":
-                if not installed and not any(tt[0] == "put" and tt[2] for tt in tl[s0:i] if True) :
-                    pass
                 holding = True
                 if not _trip_while_installed(tl, s0, i, pre, scn):
                     out.append(("suspension-after-removal", "a suspension started although the trip arrived after the suspender had been removed"))
